@@ -6,7 +6,10 @@ import (
 	"encoding/json"
 	"fmt"
 	"reflect"
+	"runtime"
 	"strings"
+	"sync"
+	"sync/atomic"
 	"time"
 
 	"github.com/brocaar/lorawan"
@@ -429,9 +432,124 @@ func c09FirstCalls(c *core.Ctx) {
 	}
 }
 
+// c09Grid: every binary decoder on the complete grid of short inputs
+// (selector byte, status / mask / length byte, 0..14 further bytes): decoders
+// whose length check and field reads are driven by different bits of the
+// second byte fail only for particular values of it.
+func c09Grid(c *core.Ctx, entries []c09Entry) {
+	var sel []int
+	for i := 0; i < 32; i++ {
+		sel = append(sel, i)
+	}
+	sel = append(sel, 0x40, 0x60, 0x80, 0xa0, 0xc0, 0xe0, 0xff)
+	for _, e := range entries {
+		if e.text || e.json {
+			continue
+		}
+		mon := "grid-" + e.name
+		for _, b0 := range sel {
+			if !c.Mine(mon, int64(b0)) {
+				continue
+			}
+			r := c.RNG(mon, int64(b0))
+			buf := make([]byte, 0, 24)
+			for b1 := 0; b1 < 256; b1++ {
+				for k := 0; k <= 14; k++ {
+					for _, fill := range []byte{0x00, 0xff} {
+						if k == 0 && fill == 0xff {
+							continue
+						}
+						buf = append(buf[:0], byte(b0), byte(b1))
+						for i := 0; i < k; i++ {
+							buf = append(buf, fill)
+						}
+						c.Eval(1)
+						// capacity == length: a decoder that re-slices beyond the length it was given must fault
+						in := append(make([]byte, 0, len(buf)), buf...)
+						in = in[:len(in):len(in)]
+						if p, msg := core.Guard(func() { e.call(r, in) }); p {
+							c.Violate("C09|panic|"+e.name+"|"+core.PanicSite(msg), "%s(%x) panics: %s", e.name, buf, short(msg, 400))
+						} else if !bytes.Equal(in, buf) {
+							c.Violate("C09|input-modified|"+e.name, "%s wrote into its input buffer: was %x now %x", e.name, buf, in)
+						}
+					}
+				}
+			}
+			c.Shape(e.name, "grid", b0)
+		}
+	}
+}
+
+// c09ConcurrentRegistry: "never hangs" includes decoding while another goroutine
+// registers a proprietary MAC command (the registry is the one lock decoders
+// take). A deadlock leaves the case stuck; the worker watchdog and the parent's
+// single-case replay turn that into a hang violation. Verdict by completion of a
+// fixed number of operations, not by a deadline.
+func c09ConcurrentRegistry(c *core.Ctx) {
+	rounds := c.N(24, 400)
+	for h := int64(0); h < rounds; h++ {
+		if !c.Mine("decode-while-registering", h) {
+			continue
+		}
+		r := c.RNG("decode-while-registering", h)
+		lorawan.VerifResetProprietary()
+		var wg sync.WaitGroup
+		start := make(chan struct{})
+		var decoded int64
+		var pmsg atomic.Value
+		for g := 0; g < 2+r.Intn(6); g++ {
+			wg.Add(1)
+			go func(rr *core.RNG) {
+				defer wg.Done()
+				<-start
+				for i := 0; i < 150; i++ {
+					up := rr.Bool()
+					_, b := genMACStream(rr, up, 1+rr.Intn(14), false)
+					b = append(b, 0xE0, 1, 2)
+					if p, msg := core.Guard(func() {
+						f := frameOf(up, nil, 0, b)
+						f.DecodeFRMPayloadToMACCommands()
+						g := frameOf(up, b[:minInt(len(b), 15)], 1, nil)
+						g.DecodeFOptsToMACCommands()
+						var mc lorawan.MACCommand
+						mc.UnmarshalBinary(up, b)
+					}); p {
+						pmsg.Store(msg)
+					}
+					atomic.AddInt64(&decoded, 3)
+				}
+			}(c.RNG("decode-while-registering-d", h*16+int64(g)))
+		}
+		for w := 0; w < 1+r.Intn(2); w++ {
+			wg.Add(1)
+			go func(rr *core.RNG) {
+				defer wg.Done()
+				<-start
+				for i := 0; i < 120; i++ {
+					lorawan.RegisterProprietaryMACCommand(rr.Bool(), lorawan.CID(0xE0+rr.Intn(4)), 1+rr.Intn(4))
+					if i%4 == 0 {
+						runtime.Gosched()
+					}
+				}
+			}(c.RNG("decode-while-registering-w", h*16+int64(w)))
+		}
+		close(start)
+		wg.Wait()
+		c.Eval(decoded)
+		c.Count("decodes-completed-while-registering", decoded)
+		if m := pmsg.Load(); m != nil {
+			c.Violate("C09|panic|decode-while-registering|"+core.PanicSite(m.(string)), "MAC-command decode panics while a proprietary command is being registered: %s", short(m.(string), 400))
+		}
+		c.Shape("decode-while-registering", runtime.GOMAXPROCS(0), h%8)
+	}
+	lorawan.VerifResetProprietary()
+}
+
 func runC09(c *core.Ctx) {
 	c09FirstCalls(c)
 	entries := c09Entries()
+	c09Grid(c, entries)
+	c09ConcurrentRegistry(c)
 	per := c.N(3000, 1500000)
 	for ei, e := range entries {
 		mon := "entry-" + e.name
@@ -464,6 +582,11 @@ func runC09(c *core.Ctx) {
 				}
 				copy(buf[pre:], in)
 				arg := buf[pre : pre+len(in)]
+				if k%2 == 1 {
+					// no spare capacity: reading past the end by re-slicing (data[a:b] with b > len) faults
+					// instead of silently succeeding
+					arg = buf[pre : pre+len(in) : pre+len(in)]
+				}
 				var err error
 				t0 := time.Now()
 				c.Eval(1)
